@@ -454,4 +454,117 @@ theorem join_values_eq_spec (s : State) (vi : Nat) (v : View) (d : List UInt8) (
   rw [if_neg c, applyDet_nil, joinLoop_values v d _ s 0 [] hd]
   rfl
 
+/-! ## set(array-like) / %TypedArray%.of / .from without adversary: the elements written are the encoded values -/
+
+theorem attached_writeElem (s : State) (v : View) (k : Nat) (raw : List UInt8) (b : Nat) :
+    (s.writeElem v k raw).attached b = s.attached b := by
+  unfold State.attached State.writeElem
+  rw [data?_writeRange]
+  by_cases h : b = v.buf
+  · subst h; simp
+  · simp [h]
+
+/-- without adversary (`det = []` everywhere), with convertible values, an attached buffer and room in the view,
+TypedArraySetElement for `k, k+1, …` is `writeElems` of the encoded values -/
+theorem setArrLoop_noadv (v : View) : ∀ (vals : List VArg) (s : State) (k : Nat),
+    (∀ a ∈ vals, a.det = [] ∧ (encode v.kind a.num).isSome = true) → s.attached v.buf = true → k + vals.length ≤ v.length →
+    setArrLoop s v k vals = (.ok, writeElems s v k (vals.map (fun a => (encode v.kind a.num).getD []))) := by
+  intro vals
+  induction vals with
+  | nil => intro s k _ _ _; rfl
+  | cons a as ih =>
+    intro s k h ha hk
+    simp only [List.length_cons] at hk
+    obtain ⟨hdet, henc⟩ := h a (List.mem_cons_self ..)
+    obtain ⟨raw, hraw⟩ := Option.isSome_iff_exists.mp henc
+    unfold setArrLoop; dsimp only
+    rw [hdet, applyDet_nil, hraw]; dsimp only
+    have hvalid : isValidIntegerIndex (s.attached v.buf) v.length (k : Int) = true := by
+      simp [isValidIntegerIndex, ha]; omega
+    rw [if_pos hvalid]
+    simp only [List.map_cons, writeElems, hraw, Option.getD_some]
+    exact ih _ _ (fun b hb => h b (List.mem_cons_of_mem _ hb)) (by rw [attached_writeElem]; exact ha) (by omega)
+
+/-- **set(array-like), no adversary**: elements `[t, t+n)` of the view hold the encoded values, every byte range outside
+them is unchanged. -/
+theorem setArr_bytes_eq_spec (s : State) (vi : Nat) (v : View) (t : Nat) (vals : List VArg) (d : List UInt8)
+    (hi : Inv s) (hv : s.views[vi]? = some v) (hd : s.data? v.buf = some d)
+    (hvals : ∀ a ∈ vals, a.det = [] ∧ (encode v.kind a.num).isSome = true) (hfit : t + vals.length ≤ v.length) :
+    ∃ d', (opSetArr s vi (some ⟨t, []⟩) vals).2.data? v.buf = some d' ∧ d'.length = d.length ∧
+      (∀ i, i < vals.length → elemAt d' v (t + i) = fit v.kind.size ((encode v.kind (vals.getD i ⟨.undef, []⟩).num).getD [])) ∧
+      (∀ lo n, (lo + n ≤ (v.offset + t) * v.kind.size ∨ (v.offset + t + vals.length) * v.kind.size ≤ lo) →
+        window d' lo n = window d lo n) := by
+  have ha : s.attached v.buf = true := by unfold State.attached; rw [hd]; rfl
+  have hb : v.hi ≤ d.length := by
+    have := (hi.views v (List.mem_of_getElem? hv)).2 ha
+    unfold State.blen at this; rw [hd] at this; exact this
+  have c0 : ¬ ((t : Int) < 0) := by omega
+  have c1 : ¬ (!s.attached v.buf) = true := by simp [ha]
+  have c2 : ¬ ((vals.length : Int) + (t : Int) > (v.length : Int)) := by omega
+  have hop : opSetArr s vi (some ⟨(t : Int), []⟩) vals =
+      (.ok, writeElems s v t (vals.map (fun a => (encode v.kind a.num).getD []))) := by
+    unfold opSetArr; rw [hv]; dsimp only
+    simp only [oDet, oVal, applyDet_nil]
+    simp only [c0, c1, c2, if_false]
+    rw [Int.toNat_natCast, setArrLoop_noadv v vals s t hvals ha hfit]
+    simp
+  rw [hop]
+  have hbound : (v.offset + t + (vals.map (fun a => (encode v.kind a.num).getD [])).length) * v.kind.size ≤ d.length := by
+    rw [List.length_map]
+    refine Nat.le_trans (Nat.mul_le_mul_right _ (by omega : v.offset + t + vals.length ≤ v.offset + v.length)) hb
+  obtain ⟨d', h1, h2, h3, h4⟩ := writeElems_elems v (vals.map (fun a => (encode v.kind a.num).getD [])) s t d hd hbound
+  refine ⟨d', h1, h2, ?_, ?_⟩
+  · intro i hi'
+    have := h3 i (by rw [List.length_map]; exact hi')
+    unfold elemAt
+    rw [← Nat.add_assoc, this]
+    congr 1
+    rw [List.getD_eq_getElem?_getD, List.getElem?_map, List.getD_eq_getElem?_getD, List.getElem?_eq_getElem hi']
+    rfl
+  · intro lo n hlo
+    apply h4
+    rw [List.length_map]
+    exact hlo
+
+/-! ## slice onto the SAME buffer (species constructor returned a view of the source's buffer) -/
+
+/-- the model's forward live byte copy within one buffer is `copyUp` on its bytes -/
+theorem copyFwd_same_data (b : Nat) : ∀ (n : Nat) (s : State) (slo dlo : Nat) (d : List UInt8), s.data? b = some d →
+    (copyFwd s b slo b dlo n).data? b = some (copyUp (0 : UInt8) id d slo dlo n) ∧
+    ∀ b', b' ≠ b → (copyFwd s b slo b dlo n).data? b' = s.data? b' := by
+  intro n
+  induction n with
+  | zero => intro s slo dlo d h; exact ⟨h, fun _ _ => rfl⟩
+  | succ n ih =>
+    intro s slo dlo d h
+    simp only [copyFwd, copyUp, id]
+    have hrv : (s.readByte b slo).1 = d.getD slo 0 := by simp [State.readByte, h]
+    have hw : ∀ b', ((s.readByte b slo).2.writeByte b dlo (s.readByte b slo).1).data? b' =
+        if b' = b then some (d.set dlo (d.getD slo 0)) else s.data? b' := by
+      intro b'
+      rw [data?_writeByte, hrv]
+      by_cases hb : b' = b
+      · subst hb; simp only [if_true]; show (s.data? b').map _ = _; rw [h]; rfl
+      · simp only [hb, if_false]; rfl
+    obtain ⟨a, c⟩ := ih _ (slo + 1) (dlo + 1) _ (by rw [hw, if_pos rfl])
+    exact ⟨a, fun b' hb' => by rw [c b' hb', hw, if_neg hb']⟩
+
+/-- goja's same-type slice (builtin_typedarrays.go:1107-1114): `copy` (memmove) when the target starts at or before the
+source or after its end, otherwise an explicit forward byte loop -/
+def sliceMech (d : List UInt8) (srcLo dstLo n : Nat) : List UInt8 :=
+  if dstLo ≤ srcLo ∨ dstLo ≥ srcLo + n then splice d dstLo (window d srcLo n) else copyUp (0 : UInt8) id d srcLo dstLo n
+
+/-- **slice, same element type**: goja's mechanism equals ECMA-262's forward byte-by-byte copy with live reads (which is
+what the model's `copyFwd` performs) for every relative position of source and target on the buffer. -/
+theorem sliceMech_eq_spec (d : List UInt8) (srcLo dstLo n : Nat) (h : dstLo + n ≤ d.length) :
+    sliceMech d srcLo dstLo n = copyUp (0 : UInt8) id d srcLo dstLo n := by
+  unfold sliceMech
+  split
+  · rename_i hc
+    have key := (overlapDir_eq_clone (0 : UInt8) id d srcLo dstLo n h).1 (by omega)
+    rw [key]
+    unfold cloneWrite
+    rw [List.map_id, splice_eq_gsplice, window_eq_gwindow]
+  · rfl
+
 end GojaModel.C17
